@@ -21,7 +21,7 @@ class C04(SessionCheck):
         out = []
         offs = list(range(0, 700, 37)) if tier == 'quick' else list(range(0, 900))
         for i, off in enumerate(offs):
-            out.append({'kind': 'e2e', 'sc': {'transport': 'tls' if (tier == 'thorough' and i % 10 == 9) else 'unix', 'profile': 'default',
+            out.append({'kind': 'e2e', 'sc': {'transport': 'tls' if (tier == 'thorough' and i % 10 == 9) else ('ssh' if i % 5 == 4 else 'unix'), 'profile': 'default',
                                               'threads': 2, 'per_thread': 2, 'window': 2, 'notifs': 0, 'seg': rng.choice(['random', 'whole']),
                                               'seed': 11, 'timeout': 1.5, 'fault': {'kind': 'close-at-offset', 'offset': off}}})
         for k in range(1, 4 if tier == 'quick' else 8):
